@@ -20,8 +20,8 @@ EXPLANATION = (
     'scope-over-flag precedence in the three predicates; (f) deep seal. '
     'Decides the shape of the code for all inputs; does not decide that the '
     'tree is bit-identical after a refused call.')
-FLOORS = {'C08.a': 20, 'C08.b': 20, 'C08.c': 8, 'C08.d': 8, 'C08.e': 3,
-          'C08.f': 3, 'C08.g': 3}
+FLOORS = {'C08.a': 10, 'C08.b': 10, 'C08.c': 4, 'C08.d': 4, 'C08.e': 1,
+          'C08.f': 1, 'C08.g': 1}
 
 FILES = ['pyglove/core/symbolic/base.py', 'pyglove/core/symbolic/list.py',
          'pyglove/core/symbolic/dict.py', 'pyglove/core/symbolic/object.py',
@@ -462,12 +462,11 @@ def rule_g(ctx):
     fs, fg = m.funcs.get(scope), m.funcs.get(getter)
     if fs is None or fg is None:
       raise AnalysisError(f'flags.{scope}/{getter} vanished')
-    problems = c17.scope_installs_param(fs)
-    ks = {A.unparse(c.args[0]) for c in A.calls_in(fs.node)
-          if (A.call_name(c) or '').endswith('thread_local_value_scope') and c.args}
-    kg = {A.unparse(c.args[0]) for c in A.calls_in(fg.node)
+    problems = c17.scope_installs_param(fs, idx)
+    ks = {c17.scope_key(idx, m, fs)}
+    kg = {c17._const_value(idx, m, c.args[0]) for c in A.calls_in(fg.node)
           if (A.call_name(c) or '').endswith('thread_local_get') and c.args}
-    if len(ks) != 1 or ks != kg:
+    if len(ks) != 1 or None in ks or ks != kg:
       problems.append(f'scope sets {sorted(ks)} but getter reads {sorted(kg)}')
     # getter default is None (no scope => per-object flag decides)
     for c in A.calls_in(fg.node):
